@@ -765,6 +765,14 @@ var ribTableSpecs = []fnSpec{
 	tableAddSpec("AddNextHop", "addNextHop", "*aftpb.Afts_NextHopKey", "NHEntryC", "nhExists", "retrieveNH", "doAddNH", "*aft.Afts_NextHop", "3"),
 }
 
+var ribSmallSpecs = []fnSpec{
+	{
+		file: "rib/rib.go", goName: "checkCandidate", callAs: "checkCandidate§", leanName: "checkCandidate",
+		params: []param{{goName: "caft", goType: "*aft.Afts", lean: "caft", kd: kPtr("CandAfts"), nonnil: true}},
+		goRets: "error", rets: []string{"err"},
+	},
+}
+
 var chkSpecs = []fnSpec{
 	{
 		file: "chk/chk.go", goName: "HasResultsCache", callAs: "HasResultsCache", leanName: "hasResultsCache", tbFatal: true, joins: true,
@@ -790,6 +798,7 @@ var chkSpecs = []fnSpec{
 
 func init() {
 	specs = append(specs, chkSpecs...)
+	specs = append(specs, ribSmallSpecs...)
 	specs = append(specs, ribTableSpecs...)
 	specs = append(specs, ribTableDelSpecs...)
 	specs = append(specs, ribRefSpecs...)
